@@ -837,6 +837,26 @@ Section H.
         symmetry in Al. apply orb_false_iff in Al as [_ Al]. exact Al.
   Qed.
 
+  (* a successful reset establishes the invariant whatever the state before *)
+  Lemma hinv_after_reset k m obs m' :
+    sim_ok k -> do_call Sim k m CReset = (RObs obs, m') -> hinv k Live m'.
+  Proof.
+    intros Hs H. destruct k; cbn in H; [| | |contradiction]; cbn.
+    - destruct (all_reset_reports_learning m) as (obs1 & m1 & E & _ & D & _). rewrite E in H.
+      injection H as <- <-. intros _. rewrite D. apply incl_refl.
+    - destruct (turn_reset_first_turn m) as [(_ & E)|(a0 & rest & ob & m1 & Eo & E & P & D & _)];
+        rewrite E in H; [discriminate|]. injection H as <- <-.
+      assert (HL : L <> 0) by (rewrite Eo; discriminate).
+      split; [intros _; rewrite P; apply Nat.mod_upper_bound, HL|].
+      split; [intros _; rewrite D; apply incl_refl|]. intros _. exists a0.
+      assert (Ha : In a0 order) by (rewrite Eo; left; reflexivity).
+      split; [exact Ha|]. rewrite D. intros C. apply nonlearning_In in C.
+      apply order_In_iff in Ha. destruct C, Ha. congruence.
+    - destruct (dyn_reset_reports_nominated m) as (obs1 & m1 & E & _ & D & _). rewrite E in H.
+      injection H as <- <-. intros _. rewrite D. apply all_in_false. exists 0.
+      split; [apply agents_In; destruct Hs; lia|intros []].
+  Qed.
+
   Lemma in_protocol_tail e t : in_protocol (e :: t) -> in_protocol t.
   Proof. intros H x Hx. apply H. right. exact Hx. Qed.
 
